@@ -888,5 +888,718 @@ Proof.
   all: rewrite ?Nat.eqb_refl in *.
   all: try match goal with E : cst _ = _ |- _ => rewrite E in HX end.
   all: try (destruct (xst (cbs s _)) eqn:EX; cbn in *; eqb_cases; try lia; try congruence; fail).
-  Show.
-Admitted.
+  assert (Hc : cst (cbs s c0) = CLinked) by (apply (B_in _ HB); rewrite Heql0; now left).
+  rewrite Hc in HX. destruct (xst (cbs s c0)); cbn in *; try discriminate. lia.
+Qed.
+
+Lemma is_exec_by_ev t c t' k :
+  is_exec_by t c (t', k) = Nat.eqb t' t && match k with EExec c' => Nat.eqb c' c | _ => false end.
+Proof. reflexivity. Qed.
+Lemma is_end_by_ev t c t' k :
+  is_end_by t c (t', k) = Nat.eqb t' t && match k with EEnd c' => Nat.eqb c' c | _ => false end.
+Proof. reflexivity. Qed.
+
+Lemma InvT_run s tr t s' ev : InvT s tr -> step t s = Some (s', ev) ->
+  forall t0 c0, cnt (is_exec_by t0 c0) (tr ++ ev) = cnt (is_end_by t0 c0) (tr ++ ev) + nfr c0 (thr s' t0).
+Proof.
+  intros HT H t0 c0.
+  pose proof (T_run _ _ HT t0 c0) as HR0.
+  pose proof (T_run _ _ HT t c0) as HRt.
+  step_inv H; rewrite !cnt_app; cbn; rewrite ?is_exec_by_ev, ?is_end_by_ev; cbn;
+    rewrite ?andb_false_r; cbn; unfold upd; eqb_cases; cbn in *; auto.
+  all: try lia.
+  all: rewrite ?Nat.eqb_refl in *; cbn in *; try lia.
+  all: eqb_cases; cbn in *; try lia; try congruence.
+  all: destruct oc; cbn in *; eqb_cases; lia.
+Qed.
+
+Lemma InvT_ret s tr t s' ev : InvE s -> InvT s tr -> step t s = Some (s', ev) ->
+  forall t0 c0, In (t0, EDeregRet c0) (tr ++ ev) -> dst (cbs s' c0) = DDone t0.
+Proof.
+  intros HE HT H t0 c0 Hin.
+  pose proof (T_ret _ _ HT t0 c0) as HR0.
+  apply in_app_iff in Hin.
+  step_inv H; cbn in *; unfold upd; eqb_cases; cbn in *.
+  all: repeat match goal with Hx : _ \/ _ |- _ => destruct Hx as [Hx|Hx]; try discriminate Hx end.
+  all: try tauto.
+  all: try congruence.
+  all: try (exfalso; specialize (HR0 Hin); congruence).
+  all: exfalso; specialize (HR0 Hin);
+       match goal with E : thr _ _ = _ :: _ |- _ =>
+         destruct (dereg_top_started _ _ c _ _ HE E) as [? _];
+         [cbn; now rewrite Nat.eqb_refl|congruence] end.
+Qed.
+
+Lemma step_ev_shape s t s' ev : step t s = Some (s', ev) ->
+  (exists e, ev = [e]) \/ (exists e1 e2, ev = [e1; e2]).
+Proof. intros H. step_inv H; eauto. Qed.
+
+Lemma step_ev_tid s t s' ev : step t s = Some (s', ev) -> forall e, In e ev -> fst e = t.
+Proof.
+  intros H e Hin. step_inv H; cbn in Hin;
+  repeat match goal with Hx : _ \/ _ |- _ => destruct Hx as [Hx|Hx] end; subst; try reflexivity; tauto.
+Qed.
+
+Lemma step_ret_last s t s' e1 e2 : step t s = Some (s', [e1; e2]) ->
+  forall t' c, e1 <> (t', EDeregRet c).
+Proof. intros H t' c. step_inv H; discriminate. Qed.
+
+(* a callback touched by an event of this step has not been destroyed *)
+Lemma step_touch s t s' ev : InvA s -> InvB s -> InvC s -> InvD s -> InvE s ->
+  step t s = Some (s', ev) ->
+  forall e c, In e ev -> touches c (snd e) = true -> forall t', dst (cbs s c) <> DDone t'.
+Proof.
+  intros HA HB HC HD HE H e c0 Hin Ht t' Hd.
+  destruct (E_done _ HE _ _ Hd) as [Hc _].
+  step_inv H; cbn in Hin;
+  repeat match goal with Hx : _ \/ _ |- _ => destruct Hx as [Hx|Hx] end; subst; cbn in Ht;
+  try discriminate; try tauto.
+  all: apply Nat.eqb_eq in Ht; subst.
+  all: try congruence.
+  all: try (intuition congruence).
+  all: try (assert (cst (cbs s c0) = CLinked) by (apply (B_in _ HB); rewrite Heql0; now left);
+            intuition congruence).
+  all: try (match goal with E : thr _ _ = _ :: _ |- _ =>
+              destruct (dereg_top_started _ _ c0 _ _ HE E) as [? _];
+              [cbn; now rewrite Nat.eqb_refl|congruence] end).
+  all: try (eapply (E_post _ HE t c0); eauto; rewrite Heql; now left).
+Qed.
+
+Lemma cnt_other_tid p t' l :
+  (forall e, p e = true -> fst e = t') -> (forall e, In e l -> fst e <> t') -> cnt p l = 0.
+Proof.
+  intros Hp Hl. unfold cnt. induction l as [|e r IH]; cbn; auto.
+  destruct (p e) eqn:Ep.
+  - exfalso. apply (Hl e); [now left|]. auto.
+  - apply IH. intros e' Hin. apply Hl. now right.
+Qed.
+
+Lemma is_exec_by_tid t c e : is_exec_by t c e = true -> fst e = t.
+Proof. unfold is_exec_by. intros H. apply andb_true_iff in H. destruct H as [H _]. now apply Nat.eqb_eq. Qed.
+Lemma is_end_by_tid t c e : is_end_by t c e = true -> fst e = t.
+Proof. unfold is_end_by. intros H. apply andb_true_iff in H. destruct H as [H _]. now apply Nat.eqb_eq. Qed.
+
+(* when a destructor returns on t, no other thread has a body frame of that callback *)
+Lemma step_ret_quiet s t s' ev : InvA s -> InvB s -> InvC s -> InvD s -> InvE s ->
+  step t s = Some (s', ev) ->
+  forall e c, In e ev -> snd e = EDeregRet c -> forall t', t' <> t -> nfr c (thr s t') = 0.
+Proof.
+  intros HA HB HC HD HE H e c0 Hin He t' Hne.
+  assert (HE' : InvE s') by (eapply InvE_step; eauto).
+  assert (Hd : dst (cbs s' c0) = DDone t).
+  { step_inv H; cbn in Hin;
+    repeat match goal with Hx : _ \/ _ |- _ => destruct Hx as [Hx|Hx] end; subst; cbn in He;
+    try discriminate; try tauto.
+    all: injection He as <-; cbn; now rewrite upd_eq. }
+  destruct (E_done _ HE' _ _ Hd) as [_ Hx].
+  rewrite (B_fr _ HB c0 t').
+  assert (Hxs : xst (cbs s' c0) = xst (cbs s c0)).
+  { step_inv H; cbn in Hin;
+    repeat match goal with Hx : _ \/ _ |- _ => destruct Hx as [Hx|Hx] end; subst; cbn in He;
+    try discriminate; try tauto.
+    all: injection He as <-; cbn; rewrite upd_eq; cbn; congruence. }
+  rewrite Hxs in Hx.
+  destruct (xst (cbs s c0)) as [|t''|]; cbn; auto.
+  destruct (Nat.eqb_spec t'' t'); auto. subst. exfalso. apply Hne. now apply Hx.
+Qed.
+
+Lemma InvT_q1 s tr t s' ev : InvA s -> InvB s -> InvC s -> InvD s -> InvE s -> InvT s tr ->
+  step t s = Some (s', ev) -> AtEvent Q1 (tr ++ ev).
+Proof.
+  intros HA HB HC HD HE HT H.
+  assert (Hno : forall e c, In e ev -> touches c (snd e) = true -> forall t', ~ In (t', EDeregRet c) tr).
+  { intros e c Hin Ht t' Hr. apply (T_ret _ _ HT) in Hr. revert Hr. eapply step_touch; eauto. }
+  destruct (step_ev_shape _ _ _ _ H) as [[e ->]|(e1 & e2 & ->)].
+  - apply AtEvent_app1; [apply (T_q1 _ _ HT)|].
+    intros c Ht t'. eapply Hno; eauto. now left.
+  - apply AtEvent_app2; [apply (T_q1 _ _ HT)| |].
+    + intros c Ht t'. eapply Hno; eauto. now left.
+    + intros c Ht t' Hin. apply in_app_iff in Hin. destruct Hin as [Hin|[Hin|[]]].
+      * revert Hin. eapply Hno; eauto. right; now left.
+      * eapply step_ret_last; eauto.
+Qed.
+
+Lemma InvT_q2 s tr t s' ev : InvA s -> InvB s -> InvC s -> InvD s -> InvE s -> InvT s tr ->
+  step t s = Some (s', ev) -> AtEvent Q2 (tr ++ ev).
+Proof.
+  intros HA HB HC HD HE HT H.
+  assert (Hq : forall e c, In e ev -> snd e = EDeregRet c -> forall t', t' <> fst e ->
+               cnt (is_exec_by t' c) tr = cnt (is_end_by t' c) tr).
+  { intros e c Hin He t' Hne. rewrite (step_ev_tid _ _ _ _ H e Hin) in Hne.
+    rewrite (T_run _ _ HT t' c). erewrite step_ret_quiet; eauto. }
+  destruct (step_ev_shape _ _ _ _ H) as [[e ->]|(e1 & e2 & ->)].
+  - apply AtEvent_app1; [apply (T_q2 _ _ HT)|].
+    intros c He t' Hne. eapply Hq; eauto. now left.
+  - apply AtEvent_app2; [apply (T_q2 _ _ HT)| |].
+    + intros c He t' Hne. eapply Hq; eauto. now left.
+    + intros c He t' Hne. rewrite !cnt_app.
+      assert (H1 : fst e1 = t) by (eapply step_ev_tid; eauto; now left).
+      assert (H2 : fst e2 = t) by (eapply step_ev_tid; eauto; right; now left).
+      rewrite (cnt_other_tid (is_exec_by t' c) t' [e1]);
+        [|apply is_exec_by_tid|intros e [<-|[]]; congruence].
+      rewrite (cnt_other_tid (is_end_by t' c) t' [e1]);
+        [|apply is_end_by_tid|intros e [<-|[]]; congruence].
+      rewrite !Nat.add_0_r. eapply Hq; eauto. right; now left.
+Qed.
+
+Lemma InvT_step s tr t s' ev : InvA s -> InvB s -> InvC s -> InvD s -> InvE s -> InvT s tr ->
+  step t s = Some (s', ev) -> InvT s' (tr ++ ev).
+Proof.
+  intros HA HB HC HD HE HT H. constructor.
+  - eapply InvT_exec; eauto.
+  - eapply InvT_run; eauto.
+  - eapply InvT_ret; eauto.
+  - eapply InvT_q1; eauto.
+  - eapply InvT_q2; eauto.
+Qed.
+
+Lemma InvT_init progs bods : InvT (init progs bods) [].
+Proof.
+  constructor; cbn; auto.
+  - intros t c. destruct (nth_error progs t); reflexivity.
+  - intros t c [].
+  - apply AtEvent_nil.
+  - apply AtEvent_nil.
+Qed.
+
+(* ------------------------------------------------------------------------------------------ *)
+(* All layers together, lifted to runs                                                        *)
+
+Record Inv (c : st * list ev) : Prop := {
+  I_A : InvA (fst c); I_B : InvB (fst c); I_C : InvC (fst c); I_D : InvD (fst c);
+  I_E : InvE (fst c); I_CT : InvCT (fst c) (snd c); I_T : InvT (fst c) (snd c)
+}.
+
+Lemma Inv_step c t s' ev : Inv c -> step t (fst c) = Some (s', ev) -> Inv (s', snd c ++ ev).
+Proof.
+  intros [HA HB HC HD HE HCT HT] H. constructor; cbn.
+  - eapply InvA_step; eauto.
+  - eapply InvB_step; eauto.
+  - eapply InvC_step; eauto.
+  - eapply InvD_step; eauto.
+  - eapply InvE_step; eauto.
+  - eapply InvCT_step; eauto.
+  - eapply InvT_step; eauto.
+Qed.
+
+Lemma Inv_init progs bods : Inv (init progs bods, []).
+Proof.
+  constructor; cbn.
+  - apply InvA_init. - apply InvB_init. - apply InvC_init. - apply InvD_init.
+  - apply InvE_init. - apply InvCT_init. - apply InvT_init.
+Qed.
+
+Lemma Inv_run_from c sched : Inv c -> Inv (run step sched c).
+Proof. apply run_invariant. intros; eapply Inv_step; eauto. Qed.
+
+Lemma Inv_run progs bods sched : Inv (run step sched (init progs bods, [])).
+Proof. apply Inv_run_from, Inv_init. Qed.
+
+(* ------------------------------------------------------------------------------------------ *)
+(* Theorems                                                                                   *)
+
+Lemma cnt_pos_in p tr : cnt p tr <> 0 -> exists e, In e tr /\ p e = true.
+Proof.
+  unfold cnt. induction tr as [|e r IH]; cbn; [congruence|].
+  destruct (p e) eqn:Ep.
+  - intros _. exists e. auto.
+  - intros H. destruct (IH H) as (e' & Hin & Hp). exists e'. auto.
+Qed.
+
+Lemma is_acq03_inv e : is_acq03 e = true -> e = (fst e, EAcq true 0 3).
+Proof.
+  destruct e as [t k]. unfold is_acq03. cbn.
+  destruct k as [ar o n| | | | | | | | | |]; try discriminate.
+  destruct ar; try discriminate. destruct o; try discriminate.
+  do 4 (destruct n; try discriminate). reflexivity.
+Qed.
+
+Lemma finished_nreqf s t : finished s t = true -> nreqf (thr s t) = 0.
+Proof.
+  unfold finished. destruct (thr s t) as [|f l]; auto.
+  destruct f; try discriminate. destruct oc; try discriminate.
+  destruct k; try discriminate. destruct l; try discriminate. reflexivity.
+Qed.
+
+(* exactly one request_stop is the first *)
+Theorem first_unique progs bods sched :
+  let c := run step sched (init progs bods, []) in
+  let s := fst c in let tr := snd c in
+  cnt is_rsfalse tr <= 1 /\ cnt is_acq03 tr <= 1 /\
+  (cnt is_acq03 tr = 1 <-> stop s = true) /\
+  (forall t, In (t, ERsRet false) tr -> In (t, EAcq true 0 3) tr) /\
+  (forall t b, In (t, ERsRet b) tr -> stop s = true) /\
+  ((forall t, finished s t = true) -> stop s = true -> cnt is_rsfalse tr = 1).
+Proof.
+  intros c s tr. destruct (Inv_run progs bods sched) as [HA HB HC HD HE HCT HT].
+  fold c in HA, HB, HC, HD, HE, HCT, HT. fold s in HA, HB, HC, HD, HE, HCT, HT. fold tr in HCT, HT.
+  destruct (notifier s) as [w|] eqn:En.
+  - destruct (CT_some _ _ HCT w En) as [H1 H2].
+    assert (Hs : stop s = true).
+    { destruct (stop s) eqn:Es; auto. apply (C_stop _ HC) in Es. congruence. }
+    assert (G4 : forall t, In (t, ERsRet false) tr -> In (t, EAcq true 0 3) tr).
+    { intros t Hin.
+      assert (Hw : notifier s = Some t) by (apply (CT_who _ _ HCT); now left).
+      destruct (cnt_pos_in is_acq03 tr) as (e & Hin' & Hp); [lia|].
+      apply is_acq03_inv in Hp. rewrite Hp in Hin'.
+      assert (Hw' : notifier s = Some (fst e)) by (apply (CT_who _ _ HCT); now right).
+      assert (fst e = t) by congruence. subst t. exact Hin'. }
+    assert (G6 : (forall t, finished s t = true) -> stop s = true -> cnt is_rsfalse tr = 1).
+    { intros Hf _. rewrite (finished_nreqf _ _ (Hf w)) in H1. lia. }
+    split; [lia|]. split; [lia|]. split; [tauto|]. split; [exact G4|]. split; [|exact G6].
+    intros t b. apply (CT_rs _ _ HCT).
+  - destruct (CT_none _ _ HCT En) as [H1 H2].
+    assert (Hs : stop s = false) by (apply (C_stop _ HC); exact En).
+    split; [lia|]. split; [lia|]. split; [split; [lia|congruence]|]. split; [|split].
+    + intros t Hin. exfalso. eapply cnt_zero_notin; [exact H1| |exact Hin]. reflexivity.
+    + intros t b. apply (CT_rs _ _ HCT).
+    + congruence.
+Qed.
+
+Lemma stop_run c sched : Inv c -> stop (fst c) = true -> stop (fst (run step sched c)) = true.
+Proof.
+  revert c. induction sched as [|t sched IH]; intros c HI Hs; [exact Hs|].
+  rewrite run_cons. unfold step_conf.
+  destruct (step t (fst c)) as [[s' ev]|] eqn:E; [|auto].
+  apply IH.
+  - eapply Inv_step; eauto.
+  - cbn. eapply stop_step; eauto. apply (I_A _ HI).
+Qed.
+
+(* stop_requested never reverts *)
+Theorem stop_monotone progs bods sched1 sched2 :
+  stop (fst (run step sched1 (init progs bods, []))) = true ->
+  stop (fst (run step (sched1 ++ sched2) (init progs bods, []))) = true.
+Proof.
+  intros H. rewrite run_app. apply stop_run; auto. apply Inv_run.
+Qed.
+
+Theorem cb_at_most_once progs bods sched c :
+  cnt (is_exec c) (snd (run step sched (init progs bods, []))) <= 1.
+Proof.
+  destruct (Inv_run progs bods sched) as [_ _ _ _ _ _ HT].
+  rewrite (T_exec _ _ HT c). destruct (is_xnone _); lia.
+Qed.
+
+(* a callback has run iff a stop request dequeued it while registered, or its registration
+   found the stop already requested; never without a stop request *)
+Theorem cb_iff progs bods sched c :
+  let cf := run step sched (init progs bods, []) in
+  let s := fst cf in let tr := snd cf in
+  (cnt (is_exec c) tr = 1 <-> (cst (cbs s c) = CPopped \/ cst (cbs s c) = CInl)) /\
+  (cnt (is_exec c) tr = 0 <-> (cst (cbs s c) = CNew \/ cst (cbs s c) = CReg \/
+                               cst (cbs s c) = CLinked \/ cst (cbs s c) = CUnlinked)) /\
+  (cnt (is_exec c) tr = 1 -> stop s = true).
+Proof.
+  intros cf s tr. destruct (Inv_run progs bods sched) as [HA HB HC HD HE HCT HT].
+  fold cf in HB, HC, HT. fold s in HB, HC, HT. fold tr in HT.
+  rewrite (T_exec _ _ HT c). pose proof (B_x _ HB c) as HX.
+  assert (Hp := C_pop _ HC).
+  destruct (cst (cbs s c)) eqn:Ec; cbn in HX; rewrite HX.
+  all: repeat split; try tauto; try congruence; try (intuition congruence).
+  all: intros _; destruct (stop s) eqn:Es; auto; destruct (Hp eq_refl c); congruence.
+Qed.
+
+(* once the destructor of c has returned on thread t: nothing touches c any more (no execution,
+   no callbackCompleted_ access, no second destruction), and at that moment c was not executing
+   on any other thread *)
+Theorem dereg_quiescent progs bods sched pre t c post :
+  snd (run step sched (init progs bods, [])) = pre ++ (t, EDeregRet c) :: post ->
+  (forall e, In e post -> touches c (snd e) = false) /\
+  (forall e, In e pre -> snd e <> EDeregRet c) /\
+  (forall t', t' <> t -> cnt (is_exec_by t' c) pre = cnt (is_end_by t' c) pre).
+Proof.
+  intros E. destruct (Inv_run progs bods sched) as [_ _ _ _ _ _ HT].
+  pose proof (T_q1 _ _ HT) as H1. pose proof (T_q2 _ _ HT) as H2.
+  split; [|split].
+  - intros e Hin. destruct (touches c (snd e)) eqn:Ht; auto. exfalso.
+    apply in_split in Hin. destruct Hin as (p1 & p2 & ->).
+    assert (E' : snd (run step sched (init progs bods, [])) = (pre ++ (t, EDeregRet c) :: p1) ++ e :: p2)
+      by (rewrite E, <- app_assoc; reflexivity).
+    apply (H1 _ _ _ E' c Ht t). apply in_app_iff. right. now left.
+  - intros e Hin He. apply in_split in Hin. destruct Hin as (p1 & p2 & ->).
+    assert (E' : snd (run step sched (init progs bods, [])) = (p1 ++ e :: p2) ++ (t, EDeregRet c) :: post)
+      by exact E.
+    destruct e as [te ke]. cbn in He. subst ke.
+    apply (H1 _ _ _ E' c) with (t := te); [cbn; apply Nat.eqb_refl|].
+    apply in_app_iff. right. now left.
+  - intros t' Hne. apply (H2 _ _ _ E c); auto.
+Qed.
+
+Lemma in_run_nfr c k l : In (FRun (Some c) k) l -> nfr c l <> 0.
+Proof.
+  induction l as [|f r IH]; cbn; [tauto|]. intros [->|Hin].
+  - rewrite Nat.eqb_refl. discriminate.
+  - specialize (IH Hin). destruct f; auto. destruct oc; auto.
+    destruct (Nat.eqb n c); cbn; lia.
+Qed.
+
+(* the notifying thread never waits for callbackCompleted_; a thread inside a callback that
+   request_stop dequeued is the notifying thread; and its remove_callback critical section
+   returns at once *)
+Theorem self_dereg_nonblocking progs bods sched :
+  let s := fst (run step sched (init progs bods, [])) in
+  (forall t c, notifier s = Some t -> ~ In (FDeregWait c) (thr s t)) /\
+  (forall t c k, In (FRun (Some c) k) (thr s t) -> cst (cbs s c) = CPopped -> notifier s = Some t) /\
+  (forall t c old rest, thr s t = FDeregCS c old :: rest -> notifier s = Some t ->
+     cst (cbs s c) <> CLinked ->
+     exists s', step t s = Some (s', [(t, ERel (word false old)); (t, EDeregRet c)]) /\ thr s' t = rest).
+Proof.
+  intros s. destruct (Inv_run progs bods sched) as [HA HB HC HD HE HCT HT]. fold s in HB, HD, HE.
+  split; [|split].
+  - intros t c En Hin. destruct (E_wait _ HE t c Hin). congruence.
+  - intros t c k Hin Hc.
+    pose proof (B_fr _ HB c t) as HF. pose proof (in_run_nfr _ _ _ Hin) as Hn.
+    destruct (xst (cbs s c)) as [|t'|] eqn:EX; cbn in HF; try lia.
+    destruct (Nat.eqb_spec t' t); [subst|lia]. eapply D_not; eauto.
+  - intros t c old rest Et En Hc. unfold step. rewrite Et.
+    assert (Hn : is_notifier s t = true) by (unfold is_notifier; rewrite En; apply Nat.eqb_refl).
+    rewrite Hn. destruct (cst (cbs s c)); try congruence; eexists; split; try reflexivity; cbn; apply upd_eq.
+Qed.
+
+(* a destroyed callback is not reachable from the list *)
+Theorem no_dangling progs bods sched c t :
+  let s := fst (run step sched (init progs bods, [])) in
+  dst (cbs s c) = DDone t -> ~ In c (lst s).
+Proof.
+  intros s Hd Hin. destruct (Inv_run progs bods sched) as [HA HB HC HD HE HCT HT]. fold s in HB, HE.
+  apply (B_in _ HB) in Hin. destruct (E_done _ HE _ _ Hd) as [Hc _]. intuition congruence.
+Qed.
+
+Theorem dereg_ret_destroyed progs bods sched c t :
+  let cf := run step sched (init progs bods, []) in
+  In (t, EDeregRet c) (snd cf) -> dst (cbs (fst cf) c) = DDone t.
+Proof.
+  intros cf. destruct (Inv_run progs bods sched) as [_ _ _ _ _ _ HT]. apply (T_ret _ _ HT).
+Qed.
+
+(* ------------------------------------------------------------------------------------------ *)
+(* What stop_requested observes; in which context a callback is entered                       *)
+
+Definition Q3 (pre : list ev) (a : ev) : Prop :=
+  forall b v, snd a = EObs b v -> (Nat.odd v = true <-> cnt is_acq03 pre = 1).
+Definition Q4 (pre : list ev) (a : ev) : Prop :=
+  forall c, snd a = EExec c ->
+  exists pre0 e, pre = pre0 ++ [e] /\ fst e = fst a /\
+    (snd e = ERel 1 \/ exists v, snd e = EObs false v /\ Nat.odd v = true).
+
+Lemma odd_word l sp : Nat.odd (word l sp) = sp.
+Proof. destruct l, sp; reflexivity. Qed.
+
+Lemma step_obs s t s' ev : step t s = Some (s', ev) ->
+  (forall e b v, In e ev -> snd e = EObs b v -> Nat.odd v = stop s /\ exists r, ev = e :: r) /\
+  (forall e1 e2 c, ev = [e1; e2] -> snd e2 = EExec c ->
+     fst e1 = fst e2 /\ (snd e1 = ERel 1 \/ exists v, snd e1 = EObs false v /\ Nat.odd v = true)) /\
+  (forall e r c, ev = e :: r -> snd e <> EExec c).
+Proof.
+  intros H. step_inv H; (split; [|split]).
+  all: try (intros e b v Hin He; cbn in Hin;
+            repeat match goal with Hx : _ \/ _ |- _ => destruct Hx as [Hx|Hx] end; subst; cbn in He;
+            try discriminate; try tauto; injection He as <- <-; rewrite odd_word; split; eauto; congruence).
+  all: try (intros e1 e2 c0 [= <- <-] He; cbn in *; try discriminate; split; auto;
+            first [left; reflexivity | right; eexists; split; [reflexivity|apply odd_word]]).
+  all: try (intros e r c0 [= <- <-]; cbn; discriminate).
+Qed.
+
+Record InvO (s : st) (tr : list ev) : Prop := { O_q3 : AtEvent Q3 tr; O_q4 : AtEvent Q4 tr }.
+
+Lemma InvO_step s tr t s' ev : InvC s -> InvCT s tr -> InvO s tr -> step t s = Some (s', ev) ->
+  InvO s' (tr ++ ev).
+Proof.
+  intros HC HCT [H3 H4] H.
+  destruct (step_obs _ _ _ _ H) as (Ho & Hx & Hnx).
+  assert (Hs : stop s = true <-> cnt is_acq03 tr = 1).
+  { destruct (notifier s) as [w|] eqn:En.
+    - destruct (CT_some _ _ HCT w En) as [_ H2]. split; auto. intros _.
+      destruct (stop s) eqn:Es; auto. apply (C_stop _ HC) in Es. congruence.
+    - destruct (CT_none _ _ HCT En) as [_ H2].
+      assert (stop s = false) by (apply (C_stop _ HC); exact En). split; [congruence|lia]. }
+  destruct (step_ev_shape _ _ _ _ H) as [[e ->]|(e1 & e2 & ->)]; constructor.
+  - apply AtEvent_app1; auto. intros b v He.
+    destruct (Ho e b v (or_introl eq_refl) He) as [Hv _]. rewrite Hv. exact Hs.
+  - apply AtEvent_app1; auto. intros c He. exfalso. eapply Hnx; eauto.
+  - apply AtEvent_app2; auto.
+    + intros b v He. destruct (Ho e1 b v (or_introl eq_refl) He) as [Hv _]. rewrite Hv. exact Hs.
+    + intros b v He. exfalso.
+      destruct (Ho e2 b v (or_intror (or_introl eq_refl)) He) as [_ [r Er]].
+      injection Er as E1 E2. subst e1.
+      (* the second event equals the first: both are EObs, but the step's first event decides *)
+      destruct (Ho e2 b v (or_introl eq_refl) He) as [_ _].
+      clear - H He. step_inv H; cbn in He; discriminate.
+  - apply AtEvent_app2; auto.
+    + intros c He. exfalso. eapply Hnx; eauto.
+    + intros c He. destruct (Hx e1 e2 c eq_refl He) as [Hf Hk].
+      exists tr, e1. auto.
+Qed.
+
+Lemma InvO_init progs bods : InvO (init progs bods) [].
+Proof. constructor; apply AtEvent_nil. Qed.
+
+(* ------------------------------------------------------------------------------------------ *)
+(* Layer F: stack shape, pending post-callback frames, the list after the stop                *)
+
+(* a non-empty stack has exactly one thread-program frame, at the bottom *)
+Fixpoint shape (l : list frame) : bool :=
+  match l with
+  | [] => false
+  | FRun None _ :: r => match r with [] => true | _ => false end
+  | _ :: r => shape r
+  end.
+Definition shape_ok (l : list frame) : bool := match l with [] => true | _ => shape l end.
+
+Record InvF (s : st) : Prop := {
+  F_shape : forall t, shape_ok (thr s t) = true;
+  F_pend : forall c, cst (cbs s c) = CPopped -> completed (cbs s c) = false ->
+           removed (cbs s c) = false -> exists w, In (FReqPost c) (thr s w);
+  F_rem : forall c, cst (cbs s c) = CPopped -> removed (cbs s c) = true ->
+          exists t, dst (cbs s c) = DDone t;
+  F_lst : lst s <> [] -> stop s = true -> exists w, notifier s = Some w /\ nreqf (thr s w) <> 0
+}.
+
+Lemma InvF_shape s t s' ev : InvF s -> step t s = Some (s', ev) -> forall t0, shape_ok (thr s' t0) = true.
+Proof.
+  intros HF H t0. pose proof (F_shape _ HF t0) as H0. pose proof (F_shape _ HF t) as Ht.
+  step_inv H; cbn; unfold upd; eqb_cases; cbn in *; auto.
+  all: try (destruct oc; cbn in *; auto; destruct l; cbn in *; auto; discriminate).
+  all: try (destruct l; cbn in *; auto; discriminate).
+Qed.
+
+Ltac upd_cbs :=
+  repeat match goal with
+  | |- context [upd (cbs ?s) ?c ?r ?c0] =>
+      destruct (Nat.eq_dec c0 c);
+      [subst; rewrite ?upd_eq | rewrite ?(upd_neq (cbs s) c c0 r) by assumption]
+  end.
+
+Lemma InvF_pend s t s' ev : InvB s -> InvD s -> InvF s -> step t s = Some (s', ev) ->
+  forall c0, cst (cbs s' c0) = CPopped -> completed (cbs s' c0) = false ->
+  removed (cbs s' c0) = false -> exists w, In (FReqPost c0) (thr s' w).
+Proof.
+  intros HB HD HF H c0.
+  pose proof (F_pend _ HF c0) as HP.
+  assert (Hkeep : forall stk f l, thr s t = f :: l -> (forall g, In g (f :: l) -> g = FReqPost c0 -> In g stk) ->
+            (exists w, In (FReqPost c0) (thr s w)) ->
+            exists w, In (FReqPost c0) (upd (thr s) t stk w)).
+  { intros stk f l Et Hk [w Hw]. exists w. unfold upd. destruct (Nat.eqb_spec w t); auto.
+    subst w. rewrite Et in Hw. apply (Hk _ Hw eq_refl). }
+  step_inv H; cbn; upd_cbs; cbn; try discriminate.
+  all: try (intros Hc Hcm Hr; eapply Hkeep; [reflexivity| |apply HP; auto];
+            intros g Hg ->; cbn in *; intuition (try discriminate; try congruence); fail).
+  intros _ _ _. exists t. rewrite upd_eq. right. now left.
+Qed.
+
+Lemma InvF_rem s t s' ev : InvB s -> InvE s -> InvF s -> step t s = Some (s', ev) ->
+  forall c0, cst (cbs s' c0) = CPopped -> removed (cbs s' c0) = true ->
+  exists t0, dst (cbs s' c0) = DDone t0.
+Proof.
+  intros HB HE HF H c0.
+  pose proof (F_rem _ HF c0) as HR.
+  step_inv H; cbn; upd_cbs; cbn; try discriminate; auto.
+  all: try (intros; eexists; reflexivity).
+  intros _ Hr. destruct (HR Heqc1 Hr) as [t0 Hd]. congruence.
+Qed.
+
+Lemma InvF_lst s t s' ev : InvA s -> InvC s -> InvF s -> step t s = Some (s', ev) ->
+  lst s' <> [] -> stop s' = true -> exists w, notifier s' = Some w /\ nreqf (thr s' w) <> 0.
+Proof.
+  intros HA HC HF H.
+  pose proof (F_lst _ HF) as HL.
+  pose proof (A_reg _ HA t) as HRt. pose proof (A_old _ HA t) as HOt.
+  assert (Hkeep : forall stk f l, thr s t = f :: l -> nreqf stk = nreqf (f :: l) ->
+            (exists w, notifier s = Some w /\ nreqf (thr s w) <> 0) ->
+            exists w, notifier s = Some w /\ nreqf (upd (thr s) t stk w) <> 0).
+  { intros stk f l Et Hk [w [Hn Hw]]. exists w. split; auto. unfold upd.
+    destruct (Nat.eqb_spec w t); auto. subst w. rewrite Et in Hw. congruence. }
+  step_inv H; cbn.
+  all: try (intros Hl Hs; eapply Hkeep; [reflexivity|reflexivity|apply HL; auto]; fail).
+  all: try (intros Hl Hs; rewrite (HOt _ _ _ eq_refl) in Hs;
+            eapply Hkeep; [reflexivity|reflexivity|apply HL; auto]; fail).
+  all: try (intros; discriminate).
+  - intros _ _. exists t. rewrite upd_eq. split; auto. cbn. discriminate.
+  - intros Hl. congruence.
+  - intros _ _. exists t. rewrite upd_eq. split; [|cbn; discriminate].
+    eapply top_req_notifier; eauto.
+  - intros Hl Hs. rewrite (HOt _ _ _ eq_refl) in Hs.
+    eapply Hkeep; [reflexivity|reflexivity|apply HL; auto].
+    intros E. rewrite E in Hl. cbn in Hl. congruence.
+Qed.
+
+Lemma InvF_step s t s' ev : InvA s -> InvB s -> InvC s -> InvD s -> InvE s -> InvF s ->
+  step t s = Some (s', ev) -> InvF s'.
+Proof.
+  intros HA HB HC HD HE HF H. constructor.
+  - eapply InvF_shape; eauto.
+  - eapply InvF_pend; eauto.
+  - eapply InvF_rem; eauto.
+  - eapply InvF_lst; eauto.
+Qed.
+
+Lemma InvF_init progs bods : InvF (init progs bods).
+Proof.
+  constructor; cbn; try discriminate; try congruence.
+  intros t. destruct (nth_error progs t); reflexivity.
+Qed.
+
+Record InvX (c : st * list ev) : Prop := {
+  X_I : Inv c; X_O : InvO (fst c) (snd c); X_F : InvF (fst c)
+}.
+
+Lemma InvX_run progs bods sched : InvX (run step sched (init progs bods, [])).
+Proof.
+  apply run_invariant.
+  - intros c t s' ev [HI HO HF] H. pose proof HI as [HA HB HC HD HE HCT HT]. constructor; cbn.
+    + eapply Inv_step; eauto.
+    + eapply InvO_step; eauto.
+    + eapply InvF_step; eauto.
+  - constructor; cbn.
+    + apply Inv_init. + apply InvO_init. + apply InvF_init.
+Qed.
+
+(* stop_requested() (and the early exit of try_lock_unless_stop_requested) sees the stop bit iff
+   some request_stop already took its first step; with first_unique (at most one such step
+   ever) the observation never reverts *)
+Theorem stop_observed progs bods sched pre t b v post :
+  snd (run step sched (init progs bods, [])) = pre ++ (t, EObs b v) :: post ->
+  (Nat.odd v = true <-> cnt is_acq03 pre = 1).
+Proof.
+  intros E. destruct (InvX_run progs bods sched) as [_ [H3 _] _].
+  apply (H3 _ _ _ E b v eq_refl).
+Qed.
+
+(* a callback body is entered either by the notifying thread right after it released the lock
+   in request_stop, or inline by the registering thread right after its registration saw the stop
+   bit *)
+Theorem exec_context progs bods sched pre t c post :
+  snd (run step sched (init progs bods, [])) = pre ++ (t, EExec c) :: post ->
+  exists pre0 e, pre = pre0 ++ [e] /\ fst e = t /\
+    (snd e = ERel 1 \/ exists v, snd e = EObs false v /\ Nat.odd v = true).
+Proof.
+  intros E. destruct (InvX_run progs bods sched) as [_ [_ H4] _].
+  apply (H4 _ _ _ E c eq_refl).
+Qed.
+
+(* after the first request_stop has returned, no callback is left in the list: every callback
+   that was registered when the stop was requested has been dequeued (and run) or has been
+   deregistered; later registrations run inline *)
+Theorem cb_complete progs bods sched :
+  let cf := run step sched (init progs bods, []) in
+  let s := fst cf in let tr := snd cf in
+  (cnt is_rsfalse tr = 1 -> lst s = [] /\ forall c, cst (cbs s c) <> CLinked) /\
+  ((forall t, finished s t = true) -> stop s = true -> forall c, cst (cbs s c) <> CLinked).
+Proof.
+  intros cf s tr. destruct (InvX_run progs bods sched) as [[HA HB HC HD HE HCT HT] _ HF].
+  fold cf in HA, HB, HC, HCT, HF. fold s in HA, HB, HC, HCT, HF. fold tr in HCT.
+  assert (Hmain : forall w, notifier s = Some w -> nreqf (thr s w) = 0 ->
+                  lst s = [] /\ forall c, cst (cbs s c) <> CLinked).
+  { intros w En Hz.
+    assert (Hs : stop s = true).
+    { destruct (stop s) eqn:Es; auto. apply (C_stop _ HC) in Es. congruence. }
+    assert (Hl : lst s = []).
+    { destruct (lst s) eqn:El; auto. exfalso.
+      destruct (F_lst _ HF) as (w' & En' & Hn); [rewrite El; discriminate|exact Hs|].
+      congruence. }
+    split; auto. intros c Hc. apply (B_in _ HB) in Hc. rewrite Hl in Hc. destruct Hc. }
+  split.
+  - intros H1. destruct (notifier s) as [w|] eqn:En.
+    + destruct (CT_some _ _ HCT w En) as [Hsum _]. apply (Hmain w eq_refl). lia.
+    + destruct (CT_none _ _ HCT En). lia.
+  - intros Hf Hs. destruct (notifier s) as [w|] eqn:En.
+    + apply (Hmain w eq_refl). apply finished_nreqf, Hf.
+    + apply (C_stop _ HC) in En. congruence.
+Qed.
+
+(* ------------------------------------------------------------------------------------------ *)
+(* Deadlock freedom                                                                           *)
+
+Definition dereg_ready (r : cbrec) : bool :=
+  match dst r with
+  | DNone => match cst r, xst r with
+             | CInl, XEnded => true
+             | CLinked, _ | CPopped, _ => true
+             | _, _ => false
+             end
+  | _ => false
+  end.
+
+(* the thread's next instruction waits for the client discipline: registration of an id that was
+   already used, destruction (or IWait) of a callback whose constructor has not returned, or a
+   second destruction *)
+Definition client_wait (s : st) (t : nat) : bool :=
+  match thr s t with
+  | FRun _ (IReg c :: _) :: _ => match cst (cbs s c) with CNew => false | _ => true end
+  | FRun _ (IDereg c :: _) :: _ => negb (dereg_ready (cbs s c))
+  | FRun _ (IWait c :: _) :: _ => negb (regd (cbs s c))
+  | _ => false
+  end.
+
+Lemma holder_enabled s t : holder s t = true -> step t s <> None.
+Proof.
+  unfold holder, step. destruct (thr s t) as [|f l]; [discriminate|].
+  destruct f; cbn; try discriminate; intros _.
+  - destruct (lst s); discriminate.
+  - destruct (cst (cbs s c)); try discriminate; destruct (is_notifier s t); discriminate.
+Qed.
+
+(* with the lock free and no client wait, a thread that cannot move is finished or spins on
+   callbackCompleted_ *)
+Lemma blocked_cases s t : locked s = false -> client_wait s t = false -> step t s = None ->
+  thr s t = [] \/ (exists l, thr s t = FRun None [] :: l) \/
+  (exists c l, thr s t = FDeregWait c :: l /\ completed (cbs s c) = false).
+Proof.
+  intros Hl Hc H. unfold client_wait in Hc. unfold step in H. rewrite Hl in H.
+  destruct (thr s t) as [|f l]; auto. right.
+  destruct f.
+  - destruct k as [|i k].
+    + destruct oc; [discriminate|]. left. eauto.
+    + exfalso. destruct i.
+      * destruct (cst (cbs s c)); try discriminate. destruct (stop s); discriminate.
+      * unfold dereg_ready in Hc. destruct (dst (cbs s c)); try discriminate.
+        destruct (cst (cbs s c)), (xst (cbs s c)); discriminate.
+      * destruct (stop s); discriminate.
+      * discriminate.
+      * destruct (regd (cbs s c)); discriminate.
+  - exfalso. destruct (lst s); discriminate.
+  - exfalso. destruct (removed (cbs s c)); discriminate.
+  - discriminate.
+  - discriminate.
+  - discriminate.
+  - exfalso. destruct (cst (cbs s c)); try discriminate; destruct (is_notifier s t); discriminate.
+  - right. destruct (completed (cbs s c)) eqn:Ec; [discriminate|]. eauto.
+Qed.
+
+Lemma shape_run_none k l : shape_ok (FRun None k :: l) = true -> l = [].
+Proof. cbn. destruct l; auto. discriminate. Qed.
+
+(* if no thread can move, and none is waiting for the client discipline, every thread has
+   finished its program: the protocol itself never deadlocks *)
+Theorem deadlock_free progs bods sched :
+  let s := fst (run step sched (init progs bods, [])) in
+  (forall t, step t s = None) -> (forall t, client_wait s t = false) ->
+  forall t, finished s t = true.
+Proof.
+  intros s Hnone Hcw.
+  destruct (InvX_run progs bods sched) as [[HA HB HC HD HE HCT HT] _ HF].
+  fold s in HA, HB, HC, HD, HE, HF.
+  assert (Hl : locked s = false).
+  { destruct (locked s) eqn:El; auto. destruct (A_some _ HA El) as [th Hh].
+    exfalso. apply (holder_enabled _ _ Hh). apply Hnone. }
+  assert (Hnowait : forall t c l, thr s t = FDeregWait c :: l -> completed (cbs s c) = false -> False).
+  { intros t c l Et Ec.
+    destruct (E_wait _ HE t c) as [Hnt Hcp]; [rewrite Et; now left|].
+    destruct (dereg_top_started _ _ c _ _ HE Et) as [Hds _]; [cbn; now rewrite Nat.eqb_refl|].
+    assert (Hr : removed (cbs s c) = false).
+    { destruct (removed (cbs s c)) eqn:Er; auto. destruct (F_rem _ HF c Hcp Er) as [t0 Hd]. congruence. }
+    destruct (F_pend _ HF c Hcp Ec Hr) as [w Hw].
+    assert (Hnw : notifier s = Some w) by (eapply post_notifier; eauto).
+    destruct (blocked_cases s w Hl (Hcw w) (Hnone w)) as [E|[[l' E]|(c' & l' & E & Ec')]].
+    - rewrite E in Hw. destruct Hw.
+    - pose proof (F_shape _ HF w) as Hsh. rewrite E in Hsh. apply shape_run_none in Hsh. subst l'.
+      rewrite E in Hw. destruct Hw as [Hw|[]]. discriminate.
+    - destruct (E_wait _ HE w c') as [Hnw' _]; [rewrite E; now left|]. congruence. }
+  intros t. unfold finished.
+  destruct (blocked_cases s t Hl (Hcw t) (Hnone t)) as [E|[[l' E]|(c' & l' & E & Ec')]].
+  - now rewrite E.
+  - pose proof (F_shape _ HF t) as Hsh. rewrite E in Hsh. apply shape_run_none in Hsh. subst l'.
+    now rewrite E.
+  - exfalso. eapply Hnowait; eauto.
+Qed.
